@@ -42,6 +42,7 @@ def run(chk: Check, proj: Project) -> None:
     s8_patch_installed(chk, proj)
     s9_no_token_lost(chk, proj, m, f)
     s10_same_as_django(chk, proj, m, f)
+    s11_string_body_language(chk, proj)
 
 
 def s7_fresh_lexer(chk: Check, proj: Project, m, f) -> bool:
@@ -136,6 +137,49 @@ def _django_create_token() -> ast.FunctionDef:
     if fn is None:
         raise AnalysisError("django Lexer.create_token not found")
     return fn
+
+
+def s11_string_body_language(chk: Check, proj: Project) -> None:
+    chk.rule("S11", "inside a quoted string the scanner stops at the closing quote and NOWHERE else: the pattern built for the string body (escapes allowed) matches every sequence of escaped pairs - a backslash followed by ANY character, a newline included - and characters that are neither the quote nor a backslash (regex language inclusion, with the flags the pattern is compiled with)")
+    import re as _re
+
+    from ..regexlang import Lang, included
+
+    m, f = proj.func("util.template_parser", "_compile_take_until_pattern")
+    chk.analysed(fkey(m, f))
+    ap = params(f)[1] if len(params(f)) > 1 else "allow_escapes"
+    comp = [c for c in calls(f) if dotted(c.func) == "re.compile"]
+    flags = 0
+    for c in comp:
+        for a in list(c.args[1:]) + [k.value for k in c.keywords]:
+            for x in ast.walk(a):
+                if isinstance(x, ast.Attribute) and (dotted(x) or "").startswith("re."):
+                    flags |= int(getattr(_re, x.attr, 0))
+    n = 0
+    for st in [x for x in stmts(f) if isinstance(x, ast.Assign) and isinstance(x.value, ast.JoinedStr)]:
+        if not any(pol and t == ap for t, pol in cond_atoms(st)):
+            continue
+        for q in ("'", '"'):
+            txt = ""
+            okf = True
+            for v in st.value.values:
+                if isinstance(v, ast.Constant):
+                    txt += str(v.value)
+                elif isinstance(v, ast.FormattedValue) and isinstance(v.value, ast.Name):
+                    txt += _re.escape(q)
+                else:
+                    okf = False
+            if not okf:
+                chk.undecided("S11", "util.template_parser:_compile_take_until_pattern:string-body", m.loc(st), "pattern template not instantiable")
+                continue
+            n += 1
+            need = "(?s)(?:\\\\.|[^" + _re.escape(q) + "\\\\])*"
+            ok, wit = included(Lang(need, 0), Lang(txt, flags))
+            chk.ob("S11", f"util.template_parser:_compile_take_until_pattern:string-body-{'single' if q == chr(39) else 'double'}-quote", m.loc(st), ok,
+                   f"`{txt}` consumes every escaped pair and every other character up to the closing quote" if ok else
+                   f"the string-body pattern `{txt}` stops in front of {wit!r}: a backslash directly before a newline (a JS line continuation inside a multi-line tag attribute) ends the scan inside the string, and a well-formed template raises 'unterminated string'",
+                   detail={"required": need, "witness": wit})
+    chk.floor("S11", n, 2)
 
 
 def s10_same_as_django(chk: Check, proj: Project, m, f) -> None:
